@@ -16,13 +16,13 @@ package task
 //@ func (*Executor).GetHash
 //@   pure allocates
 //@   init keyFrom := 0 - 1
-//@   ensures (t.Run != "" ? t.Run : e.Taskfile.Run) == "always" ==> result.0 == "" && result.1 == nil            [C06]
+//@   ensures (t.Run != "" ? t.Run : e.Taskfile.Run) == "always" ==> result.0 == "" && result.1 == nil            [C06,C11]
 //@   site hash.Name#1 ghost keyFrom := 1
 //@   site hash.Hash#1 ghost keyFrom := 2
 //@   site hash.Empty#1 ghost keyFrom := 0
 //@   ensures (t.Run != "" ? t.Run : e.Taskfile.Run) == "once" ==> keyFrom == 1                                     [C06]
 //@   ensures (t.Run != "" ? t.Run : e.Taskfile.Run) == "when_changed" ==> keyFrom == 2                             [C06]
-//@   ensures (t.Run != "" ? t.Run : e.Taskfile.Run) == "always" ==> keyFrom == 0                                   [C06]
+//@   ensures (t.Run != "" ? t.Run : e.Taskfile.Run) == "always" ==> keyFrom == 0                                   [C06,C11]
 //@   ensures (t.Run != "" ? t.Run : e.Taskfile.Run) != "always" && (t.Run != "" ? t.Run : e.Taskfile.Run) != "once"
 //@           && (t.Run != "" ? t.Run : e.Taskfile.Run) != "when_changed" ==> result.1 != nil                        [C06]
 
@@ -869,12 +869,22 @@ package task
 // 4 vars of the include statement, 5 vars of the included Taskfile, 6 vars passed in the call, 7 task vars.
 // Every source is merged with Vars.Set (an existing key is overwritten), so the order IS the precedence.
 //@ ghost var layer int scratch
+//@ ghost var varPut bool scratch
 // A value marked live (CLI_ARGS: the arguments after --) is data: it never goes through the template engine.
 //@ func (*Compiler).getVariables$1
 //@   pure allocates
 //@   ensures result != nil                                                                                     [C16,C10]
 //@ func (*Compiler).getVariables$1$1
 //@   site templater.ReplaceVar#0 requires arg0.Live == nil                                                     [C19]
+// every variable handed to the range function is PUT into the result, under its own name, whenever the function
+// returns without an error: that a later layer overrides an earlier one - the process environment, layer 0, included -
+// is all there is to the precedence of variables (no variable is skipped because something of that name exists already)
+//@   init varPut := false
+//@   site (*Vars).Set#0 requires arg0 == result && arg1 == k                                                   [C10,C19,C02]
+//@   site (*Vars).Set#0 ghost varPut := true
+//@   ensures result == nil ==> varPut                                                                          [C10,C19,C02]
+//@   nosite os.LookupEnv                                                                                       [C10,C19]
+//@   nosite os.Getenv                                                                                          [C10,C19]
 //@ func (*Compiler).getVariables
 //@   init layer := 0
 //@   site env.GetEnviron#0 requires layer == 0                                                                [C10]
